@@ -254,7 +254,12 @@ func replayTrace(tr *core.Trace) (*RunReport, int) {
 	rep := &RunReport{}
 	lines := strings.Split(strings.TrimSpace(out.String()), "\n")
 	if len(lines) == 0 || json.Unmarshal([]byte(lines[len(lines)-1]), rep) != nil {
-		// process died without a report: for C18 that is the observation itself
+		// the process died without a report. For C18 that is the observation itself: the node process
+		// exited (os.Exit / fatal) while executing the trace.
+		if tr.Property == "C18" {
+			v := deathViolation(tr)
+			return &RunReport{Violations: []core.Violation{v}}, cmd.ProcessState.ExitCode()
+		}
 		return &RunReport{HarnessErr: "replay process died without report"}, cmd.ProcessState.ExitCode()
 	}
 	return rep, cmd.ProcessState.ExitCode()
@@ -267,6 +272,72 @@ func sigClass(s string) string {
 		return s[:i]
 	}
 	return s
+}
+
+// deathViolation describes "the worker process exited while executing this trace" (C18).
+func deathViolation(tr *core.Trace) core.Violation {
+	last := tr.Steps[len(tr.Steps)-1]
+	var adv []string
+	seen := map[string]bool{}
+	for _, l := range last.Labels {
+		if strings.Contains(l, "/") && !seen[l] {
+			adv = append(adv, l)
+			seen[l] = true
+		}
+	}
+	if len(adv) == 0 {
+		adv = last.Labels
+	}
+	sort.Strings(adv)
+	if len(adv) > 4 {
+		adv = append(adv[:4], "more")
+	}
+	return core.Violation{Property: "C18", Oracle: "process-alive", Sig: "process-exit:" + strings.Join(adv, "+"), Step: len(tr.Steps) - 1,
+		Msg: fmt.Sprintf("the node process exited (os.Exit / fatal error) while executing step %d (%s) with inputs %v", len(tr.Steps)-1, last.Kind, last.Labels)}
+}
+
+// captureDeath re-runs a seed whose worker died, with trace streaming, and returns the killing prefix.
+func captureDeath(prop, tier string, seed uint64) *RunReport {
+	path := filepath.Join(os.TempDir(), fmt.Sprintf("olsim-death-%d-%d.json", os.Getpid(), seed))
+	if d := os.Getenv("OLSIM_TMP"); d != "" {
+		path = filepath.Join(d, filepath.Base(path))
+	} else if st, err := os.Stat("/dev/shm"); err == nil && st.IsDir() {
+		os.MkdirAll("/dev/shm/olsim", 0755)
+		path = filepath.Join("/dev/shm/olsim", filepath.Base(path))
+	}
+	defer os.Remove(path)
+	cmd := exec.Command(os.Args[0], "worker", prop, tier)
+	cmd.Env = append(os.Environ(), "GOMAXPROCS=2", "OLSIM_TRACE_STREAM="+path)
+	cmd.Stdin = strings.NewReader(fmt.Sprintf("%d\n", seed))
+	var out bytes.Buffer
+	cmd.Stdout = &out
+	done := make(chan error, 1)
+	if err := cmd.Start(); err != nil {
+		return nil
+	}
+	go func() { done <- cmd.Wait() }()
+	select {
+	case <-done:
+	case <-time.After(5 * time.Minute):
+		cmd.Process.Kill()
+		<-done
+		return nil
+	}
+	for _, l := range strings.Split(out.String(), "\n") {
+		if strings.HasPrefix(l, "{") {
+			return nil // it reported this time: not a reproducible death
+		}
+	}
+	b, err := os.ReadFile(path)
+	if err != nil {
+		return nil
+	}
+	tr := &core.Trace{}
+	if json.Unmarshal(b, tr) != nil || len(tr.Steps) == 0 {
+		return nil
+	}
+	v := deathViolation(tr)
+	return &RunReport{Seed: seed, Violations: []core.Violation{v}, Trace: tr, Steps: len(tr.Steps)}
 }
 
 func sameViolation(rep *RunReport, want core.Violation) bool {
@@ -533,6 +604,17 @@ func CheckMain(prop, tier string) int {
 	}
 	sr := sweep(prop, tier, seeds, workers, b.WallCap, sampleEvery)
 
+	if prop == "C18" {
+		// process death is an observation for this property: capture the killing prefix of up to 8 seeds
+		for i, seed := range sr.deaths {
+			if i >= 8 {
+				break
+			}
+			if rep := captureDeath(prop, tier, seed); rep != nil {
+				sr.reports = append(sr.reports, rep)
+			}
+		}
+	}
 	// aggregate
 	agg := core.NewStats()
 	fps := map[string]bool{}
